@@ -4,6 +4,7 @@ import (
 	"bytes"
 	"fmt"
 	"sort"
+	"time"
 
 	"github.com/canopy-network/canopy/bft"
 	"github.com/canopy-network/canopy/lib"
@@ -27,7 +28,19 @@ type knownBlock struct {
 	results *lib.CertificateResult
 }
 
+const (
+	planChaos       = 0 // random menu at every opportunity
+	planLockBreak   = 1 // partial commits + Byzantine leader proposing fresh blocks against locks, followed through
+	planStaleHighQC = 2 // withhold a PROPOSE_VOTE certificate, wait for a root-height bump, replay it as HighQc against newer locks
+)
+
 type adversary struct {
+	plan         int
+	minRound     int
+	follow       map[string]bool   // payload hashes (block hash) the adversary pushes through all phases
+	sent         map[string]bool   // crafted leader messages already sent (phase|payload|view)
+	commitTarget map[uint64]int    // height -> the only correct replica allowed to receive COMMIT messages
+	withheld     []*voteAgg        // full PROPOSE_VOTE certificates whose PRECOMMIT was withheld
 	w      *world
 	votes  map[string]*voteAgg // by hash of the vote sign bytes
 	order  []string            // insertion order (deterministic iteration)
@@ -38,7 +51,8 @@ type adversary struct {
 }
 
 func newAdversary(w *world) *adversary {
-	return &adversary{w: w, votes: map[string]*voteAgg{}, blocks: map[string]*knownBlock{}}
+	return &adversary{w: w, votes: map[string]*voteAgg{}, blocks: map[string]*knownBlock{}, follow: map[string]bool{}, sent: map[string]bool{},
+		commitTarget: map[uint64]int{}}
 }
 
 // library records a signed message seen in flight.
@@ -67,7 +81,11 @@ func (a *adversary) library(m *bft.Message, bz []byte) {
 			return
 		}
 		ag.signers[idx] = true
+		before := ag.power
 		ag.power += a.w.cfg.stakes[idx]
+		if before < a.w.vs.MinimumMaj23 && ag.power >= a.w.vs.MinimumMaj23 {
+			a.onQuorum(ag)
+		}
 	case m.IsProposerMessage():
 		if m.Qc != nil && m.Qc.Block != nil && m.Qc.Results != nil && len(m.Qc.BlockHash) > 0 {
 			a.blocks[string(m.Qc.BlockHash)] = &knownBlock{block: m.Qc.Block, results: m.Qc.Results}
@@ -85,7 +103,14 @@ func (a *adversary) observe(n *node, m *bft.Message, data []byte) {
 		return
 	}
 	// vote for everything: a Byzantine replica signs a vote for any leader payload it is shown
-	if m.IsProposerMessage() && m.Qc != nil && (m.Header.Phase == lib.Phase_PROPOSE || m.Header.Phase == lib.Phase_PRECOMMIT) && c.T.Chance(1, 3) {
+	fromByz := false
+	if m.Signature != nil {
+		if i, ok := w.pubIdx[string(m.Signature.PublicKey)]; ok {
+			fromByz = w.nodes[i].byz
+		}
+	}
+	if m.IsProposerMessage() && m.Qc != nil && (m.Header.Phase == lib.Phase_PROPOSE || m.Header.Phase == lib.Phase_PRECOMMIT) &&
+		((a.plan != planChaos && fromByz && a.follow[string(m.Qc.BlockHash)]) || c.T.Chance(1, 3)) {
 		h := m.Header.Copy()
 		h.Phase = m.Header.Phase + 1
 		vote := &bft.Message{Qc: &lib.QuorumCertificate{Header: h, BlockHash: m.Qc.BlockHash, ResultsHash: m.Qc.ResultsHash, ProposerKey: m.Signature.PublicKey}}
@@ -178,6 +203,13 @@ func (a *adversary) interceptBroadcast(n *node, m *bft.Message) bool {
 	if !m.IsProposerMessage() || m.Header.Phase == lib.Phase_ELECTION {
 		return false
 	}
+	if a.plan != planChaos {
+		if m.Header.Phase == lib.Phase_PROPOSE {
+			return a.planPropose(n, m)
+		}
+		// PRECOMMIT / COMMIT of the engine's own payload are replaced by the follow-through automation
+		return true
+	}
 	switch c.T.Pick(4, 2, 2, 1) {
 	case 0:
 		return false
@@ -236,6 +268,12 @@ func (a *adversary) opportunity(n *node) {
 	c := w.c
 	b := n.bft
 	view := b.View.Copy()
+	if a.plan != planChaos {
+		if c.T.Chance(1, 6) {
+			a.actElectionVoteSpray(n, view)
+		}
+		return
+	}
 	switch c.T.Pick(6, 3, 3, 3, 2, 2, 2, 2) {
 	case 0:
 		return
@@ -498,4 +536,170 @@ func (a *adversary) actEvidence(n *node, view *lib.View) {
 		ProposerKey: n.pub, Signature: elQC.Signature}, LastDoubleSignEvidence: evs, RcBuildHeight: n.root}
 	c.Fault("byz_propose_with_slash_list")
 	a.signAndSend(n, m, a.subset(true), fmt.Sprintf("byz-propose+slash%d%v", len(ds), kinds))
+}
+
+// ---- goal-directed plans -----------------------------------------------------------------------
+
+func (a *adversary) byzIdx(pub []byte) (*node, bool) {
+	i, ok := a.w.pubIdx[string(pub)]
+	if !ok || !a.w.nodes[i].byz {
+		return nil, false
+	}
+	return a.w.nodes[i], true
+}
+
+// onQuorum: a vote aggregate just reached +2/3. If it is for a payload the adversary is pushing
+// and names a Byzantine leader, craft the next leader message at once.
+func (a *adversary) onQuorum(ag *voteAgg) {
+	w := a.w
+	if a.plan == planChaos || (w.faultsOff() && w.c.Prop != "C15") {
+		return
+	}
+	n, ok := a.byzIdx(ag.payload.ProposerKey)
+	if !ok {
+		return
+	}
+	h := ag.payload.Header
+	switch h.Phase {
+	case lib.Phase_PROPOSE_VOTE:
+		if !a.follow[string(ag.payload.BlockHash)] {
+			return
+		}
+		if a.plan == planStaleHighQC && h.Round >= uint64(a.minRound) && len(a.withheld) < 4 && h.RootHeight == w.global && !a.sent["replayed|"+string(ag.payload.BlockHash)] {
+			// keep this certificate secret: nobody locks on it, it will be replayed after a root bump
+			a.withheld = append(a.withheld, ag)
+			// the root chain produces its next block soon afterwards (timing of root updates is free)
+			w.push(&event{at: w.now() + time.Duration(w.c.T.Intn(w.cfg.phaseMS*4))*time.Millisecond, kind: "rootbump"})
+			w.c.Fault("byz_withholds_propose_vote_certificate")
+			w.c.Logf("adversary WITHHOLDS PROPOSE_VOTE certificate for blk=%x at rh%d/r%d", ag.payload.BlockHash[:3], h.RootHeight, h.Round)
+			return
+		}
+		a.craftNext(n, ag, lib.Phase_PRECOMMIT)
+	case lib.Phase_PRECOMMIT_VOTE:
+		if !a.follow[string(ag.payload.BlockHash)] {
+			return
+		}
+		a.craftNext(n, ag, lib.Phase_COMMIT)
+	}
+}
+
+func (a *adversary) craftNext(n *node, ag *voteAgg, phase lib.Phase) {
+	w := a.w
+	key := fmt.Sprintf("%d|%s", phase, ag.key)
+	if a.sent[key] {
+		return
+	}
+	a.sent[key] = true
+	q := a.asQC(ag, false)
+	if q == nil {
+		return
+	}
+	hdr := ag.payload.Header.Copy()
+	hdr.Phase = phase
+	m := &bft.Message{Header: hdr, Qc: q, RcBuildHeight: n.root}
+	if phase == lib.Phase_COMMIT {
+		m.Timestamp = uint64(w.now().Microseconds())
+	}
+	var to []int
+	for i := range w.nodes {
+		to = append(to, i)
+	}
+	w.c.Fault("byz_follow_through_" + lib.Phase_name[int32(phase)])
+	a.signAndSend(n, m, to, "byz-follow-through")
+}
+
+// planPropose is called when a Byzantine node's engine is about to broadcast its own PROPOSE:
+// the plan replaces it.
+func (a *adversary) planPropose(n *node, m *bft.Message) bool {
+	w := a.w
+	c := w.c
+	if m.Qc == nil || m.Qc.Signature == nil {
+		return false
+	}
+	var to []int
+	for i := range w.nodes {
+		to = append(to, i)
+	}
+	// replay a withheld certificate from an earlier root height with a higher round
+	if a.plan == planStaleHighQC {
+		for _, ag := range a.withheld {
+			h := ag.payload.Header
+			if h.Height == m.Header.Height && h.RootHeight < m.Header.RootHeight && a.worthReplaying(ag) {
+				hq := a.asQC(ag, true)
+				if hq == nil {
+					continue
+				}
+				alt := &bft.Message{Header: m.Header.Copy(), Qc: &lib.QuorumCertificate{Header: m.Qc.Header, Results: hq.Results, ResultsHash: hq.ResultsHash,
+					Block: hq.Block, BlockHash: hq.BlockHash, ProposerKey: m.Qc.ProposerKey, Signature: m.Qc.Signature}, HighQc: hq, RcBuildHeight: m.RcBuildHeight}
+				c.Fault("byz_replays_withheld_certificate_across_root_heights")
+				c.Probe("stale_root_height_highqc_replayed")
+				c.Logf("adversary n%d REPLAYS withheld certificate blk=%x from rh%d/r%d as HighQc at rh%d/r%d", n.idx, hq.BlockHash[:3], h.RootHeight, h.Round, m.Header.RootHeight, m.Header.Round)
+				a.follow[string(hq.BlockHash)] = true
+				a.sent["replayed|"+string(hq.BlockHash)] = true
+				a.signAndSend(n, alt, to, "byz-stale-highqc")
+				return true
+			}
+		}
+	}
+	// otherwise: a fresh valid block that ignores every lock, pushed through all phases
+	alt := a.cloneProposeWithNewBlock(n, m, true)
+	if alt == nil {
+		return false
+	}
+	a.follow[string(alt.Qc.BlockHash)] = true
+	c.Fault("byz_propose_fresh_block_ignoring_locks")
+	a.signAndSend(n, alt, to, "byz-plan-propose")
+	return true
+}
+
+// blockedByPlan implements the network side of the plans: COMMIT messages reach exactly one correct
+// replica (so a strict subset commits), the others time out into the next round.
+func (a *adversary) blockedByPlan(from, to int, m *bft.Message) bool {
+	w := a.w
+	if a.plan == planChaos || w.faultsOff() || !m.IsProposerMessage() || from == to {
+		return false
+	}
+	if a.plan == planStaleHighQC && m.Header.Phase == lib.Phase_PROPOSE && m.Header.Round == 0 && len(a.withheld) == 0 && !w.nodes[from].byz && a.minRound > 0 {
+		// make round 0 fail so that a certificate with a round > 0 can be gathered under this root height
+		w.c.Fault("round0_proposal_lost")
+		return true
+	}
+	if m.Header.Phase != lib.Phase_COMMIT {
+		return false
+	}
+	if w.nodes[to].byz {
+		return false
+	}
+	h := m.Header.Height
+	tgt, ok := a.commitTarget[h]
+	if !ok {
+		hs := w.honest()
+		tgt = hs[w.c.T.Intn(len(hs))].idx
+		a.commitTarget[h] = tgt
+	}
+	if to == tgt {
+		return false
+	}
+	w.c.Fault("commit_message_withheld_from_replica")
+	return true
+}
+
+func (a *adversary) suppressGossip() bool {
+	return a.plan != planChaos && !a.w.faultsOff()
+}
+
+// worthReplaying: the stale certificate is only interesting once some correct replica is locked on
+// (or has committed) a different block at this height.
+func (a *adversary) worthReplaying(ag *voteAgg) bool {
+	w := a.w
+	h := ag.payload.Header.Height
+	if rec, ok := w.firstAt[h]; ok && !bytes.Equal(rec.blockHash, ag.payload.BlockHash) {
+		return true
+	}
+	for _, n := range w.honest() {
+		if n.chainHeight() == h && n.bft.HighQC != nil && !bytes.Equal(n.bft.HighQC.BlockHash, ag.payload.BlockHash) {
+			return true
+		}
+	}
+	return false
 }
